@@ -23,6 +23,8 @@ def one(sid):
     d = f"/verif/seeded/{sid}"
     meta = json.load(open(f"{d}/meta.json"))
     prop = meta["property"]
+    if meta.get("obsolete"):
+        return sid, prop, "obsolete", 0
     wt = tempfile.mkdtemp(prefix="govc-mx-", dir=base); os.rmdir(wt)
     out = tempfile.mkdtemp(prefix="govc-mxo-", dir=base)
     try:
@@ -47,5 +49,6 @@ with ThreadPoolExecutor(max_workers=jobs) as ex:
         print(*r, flush=True)
         res.append(r)
 sh("git -C /repo worktree prune")
+res = [r for r in res if r[2] != "obsolete"]
 caught = sum(1 for r in res if r[2] == "caught")
 print(f"SUMMARY caught={caught} of {len(res)}; not caught: {[r[0] + ':' + r[2] for r in res if r[2] != 'caught']}")
